@@ -3,11 +3,15 @@ use std::task::Poll;
 /// Create a guard that abort the process when the thread panicked before it's
 /// out of scope.
 ///
+/// A thread that is already unwinding when the guard is created (the guarded
+/// code runs in a destructor, e.g. a waker invoked while a panicking task drops
+/// what it owns) is not a panic of the guarded code.
+///
 /// If loom is enabled, this does nothing.
 macro_rules! panic_guard {
     () => {
         let _b = {
-            pub(crate) struct AbortOnPanic(());
+            pub(crate) struct AbortOnPanic(bool);
 
             impl Drop for AbortOnPanic {
                 #[cfg(loom)]
@@ -15,13 +19,13 @@ macro_rules! panic_guard {
 
                 #[cfg(not(loom))]
                 fn drop(&mut self) {
-                    if ::std::thread::panicking() {
+                    if !self.0 && ::std::thread::panicking() {
                         ::std::process::abort()
                     }
                 }
             }
 
-            AbortOnPanic(())
+            AbortOnPanic(::std::thread::panicking())
         };
     };
 }
